@@ -206,5 +206,5 @@ def run(ctx):
              "(array lemmas valid per z3/cvc5: %d, incomplete: %d)" % (total_events, len(items), len(rejected), array_unverified, incomplete))
     if nonarray and incomplete > INCOMPLETE_RATE * nonarray:
         ctx.tie_broken("checker-incomplete-rate", "%d of %d non-array clauses could not be decided by the verified checkers" % (incomplete, nonarray))
-    if len(items) < (3000 if ctx.quick else 30000):
+    if len(items) < (2000 if ctx.quick else 20000):
         ctx.tie_broken("too-few-clauses", "only %d theory clauses" % len(items))
